@@ -191,7 +191,8 @@ Eff(m, e) ==
       [] e.k = "React" ->
            LET S == ClusterShares(m, e)
            IN IF S = {} THEN <<>>
-              ELSE << [F("saveLiq") EXCEPT !.vs = S, !.flag = (Weaken = "reactKeepsLiquidated")] >> \o Rep(F("kmBump"), Cardinality(S))
+              ELSE (IF Weaken = "reactKeepsLiquidated" THEN <<>> ELSE << [F("saveLiq") EXCEPT !.vs = S, !.flag = FALSE] >>)
+                   \o Rep(F("kmBump"), Cardinality(S))
       [] e.k = "Fee" ->
            IF m.tx.rcpt[e.o].on /\ m.tx.rcpt[e.o].fee = e.fee THEN <<>>
            ELSE << [F("setFee") EXCEPT !.o = e.o, !.rc = [on |-> TRUE, nonce |-> m.tx.rcpt[e.o].nonce, fee |-> e.fee]] >>
